@@ -113,7 +113,7 @@ def extract_many(cfgs, jobs=None):
 # harness generation
 # ------------------------------------------------------------------------------------------------
 def harness_for(fn, contract, prop=None):
-    lines = ['int main(void) {', '  avel_static_init();']
+    lines = ['int main(void) {', '  avel_static_init();', '  avm_mem_obj = 0; avm_mem_mod = 0;']
     args = []
     h = getattr(contract, 'harness', None)
     if prop == 'C08' and getattr(contract, 'harness_C08', None):
@@ -182,8 +182,9 @@ def build_obligation(prop, cfg, db, fn, contract, replace_contracts=None):
         contracts[cn] = {'clauses': c.clauses()}
     text, externs, missing = tu.assemble(db, fn['cname'], contracts, replace=set(replace_contracts), harness=harness_for(fn, contract, prop),
                                          includes=MODEL_INCLUDES, spec_includes=SPEC_INCLUDES, model_text=model_text,
-                                         extra_roots=getattr(contract, 'extra_roots', ()))
+                                         extra_roots=getattr(contract, 'extra_roots', ()), ghosts=getattr(contract, 'ghosts', ()))
     ob = Obligation(prop, cfg, fn, contract, text, externs, set(replace_contracts))
+    ob.repl_contracts = replace_contracts
     ob.missing_models = missing
     return ob
 
@@ -265,7 +266,15 @@ def discharge(ob_text, cname, replace, workdir, flags, timeout_fast, timeout_slo
         return res
     base = ['cbmc', os.path.join(workdir, 'b.gb'), '--json-ui', '--trace', '--object-bits', '12']
     if unwind:
-        base += ['--unwind', str(unwind), '--unwinding-assertions']
+        # width-bounded loops of the extracted code only (a global --unwind would also cap the loops of DFCC's own
+        # write-set library and make its checks fail): every loop of an extracted function gets the bound, and the
+        # unwinding assertions make the result complete rather than bounded
+        rc, out, err, dt = _run(['cbmc', '--show-loops', os.path.join(workdir, 'b.gb')], workdir, 120, env)
+        ids = re.findall(r'^Loop (F_Z[^\s:]+\.\d+):', out or '', flags=re.M)
+        if not ids:
+            res['reason'] = 'no loop of an extracted function found to unwind'
+            return res
+        base += ['--unwindset', ','.join('%s:%d' % (i, unwind) for i in ids), '--unwinding-assertions']
     base += list(extra_cbmc)
     # cadical (linked into cbmc, no CNF file) is the deciding back end; kissat is the fall-back for slow queries.
     # minisat is not used: it cannot match even identical multiplier circuits through SSA copies.
